@@ -9,6 +9,13 @@ import shutil as real_shutil
 import tempfile as real_tempfile
 
 DIE_EXIT = 77
+# the error an injected fault carries varies with the boundary: what a caller may do with an error must not depend on its number ("transient"
+# numbers - EAGAIN, EINTR, ETIMEDOUT, ESTALE - are the ones a retry would be written for)
+ERRNOS = [errno.EIO, errno.ENOSPC, errno.EAGAIN, errno.EINTR, errno.ETIMEDOUT, errno.ESTALE, errno.EDQUOT, errno.EACCES]
+
+
+def injected_error(k, where):
+    return OSError(ERRNOS[(k or 0) % len(ERRNOS)], where)
 
 
 class Stop(Exception):
@@ -38,7 +45,7 @@ class IOHarness:
                 real_os._exit(DIE_EXIT)
             if self.mode == "fail_before":
                 self.injected = True
-                raise OSError(errno.EIO, f"injected before {target}.{call}")
+                raise injected_error(self.k, f"injected before {target}.{call}")
             if self.mode == "fail_after":
                 return "fail_after"
         return None
@@ -52,7 +59,7 @@ class IOHarness:
                 self.snaps.append(None)
         if token == "fail_after":
             self.injected = True
-            raise OSError(errno.EIO, f"injected after {target}.{call}")
+            raise injected_error(self.k, f"injected after {target}.{call}")
 
     def arm(self, mode, k=None, snap_path=None):
         self.mode, self.k, self.count, self.events, self.snaps, self.snap_path = mode, k, 0, [], [], snap_path
